@@ -110,100 +110,184 @@ type chanElem struct {
 // before it is handed out — whatever the spelling: newClosedBufCh(a, b),
 // make + sends + `defer close`, make + sends + close before the return, or a
 // module helper doing one of these with its own parameters (the elements are
-// then the call's arguments). ok=false: not such a channel (not closed on
-// the way out, made elsewhere, …).
+// then the call's arguments; a slice built by appends and spread into such a
+// helper contributes its elements). ok=false: not such a channel (not closed
+// on the way out, made elsewhere, …).
 func chanLiteral(fn *ssa.Function, v ssa.Value, depth int) ([]chanElem, bool) {
+	elems, closed, ok := chanFill(fn, v, depth)
+	return elems, ok && closed
+}
+
+// sliceLiteral: the elements of a slice the function builds itself — a
+// variadic argument list, nil, or make(…, 0, …) grown by appends (what a loop
+// appends is marked inLoop) — or a parameter passed on whole (spread).
+func sliceLiteral(v ssa.Value, depth int) ([]chanElem, bool) {
 	v = an.Unwrap(v)
-	if an.IsNilConst(v) || depth > 2 {
+	if depth > 8 {
 		return nil, false
 	}
-	if call, ok := v.(*ssa.Call); ok {
-		name := an.CalleeName(&call.Call)
-		if strings.HasSuffix(name, "mocrelay.newClosedBufCh") {
-			elems, ok := an.VariadicElems(call.Call.Args[0])
-			var out []chanElem
-			for _, e := range elems {
-				out = append(out, chanElem{val: e})
-			}
-			if !ok {
-				// a wrapper passing its own variadic parameter on: newClosedBufCh(msgs...)
-				if par, isPar := an.Unwrap(call.Call.Args[0]).(*ssa.Parameter); isPar {
-					return []chanElem{{val: par, spread: true}}, true
-				}
-			}
-			return out, ok
+	if vs, ok := an.VariadicElems(v); ok {
+		var out []chanElem
+		for _, e := range vs {
+			out = append(out, chanElem{val: e})
 		}
-		g := an.StaticCallee(&call.Call)
-		if !an.InModuleFn(g) || len(g.Params) != len(call.Call.Args) {
+		return out, true
+	}
+	switch x := v.(type) {
+	case *ssa.Parameter:
+		return []chanElem{{val: x, spread: true}}, true
+	case *ssa.MakeSlice:
+		if k, ok := an.ConstInt(x.Len); ok && k == 0 {
+			return nil, true
+		}
+	case *ssa.Call:
+		if b, ok := x.Call.Value.(*ssa.Builtin); ok && b.Name() == "append" && len(x.Call.Args) == 2 {
+			base, ok1 := sliceLiteral(x.Call.Args[0], depth+1)
+			more, ok2 := sliceLiteral(x.Call.Args[1], depth+1)
+			return append(append([]chanElem(nil), base...), more...), ok1 && ok2
+		}
+	case *ssa.Phi:
+		// loop-carried: s = append(s, e) in the body
+		h := x.Block()
+		if len(an.Latches(h)) == 0 {
 			return nil, false
 		}
 		var out []chanElem
+		inits := 0
+		for i, pb := range h.Preds {
+			if !h.Dominates(pb) {
+				init, ok := sliceLiteral(x.Edges[i], depth+1)
+				if !ok || inits > 0 {
+					return nil, false
+				}
+				inits++
+				out = append(init, out...)
+				continue
+			}
+			// back edge: a chain of appends that starts at the phi itself
+			cur := an.Unwrap(x.Edges[i])
+			var added []chanElem
+			for cur != ssa.Value(x) {
+				call, ok := cur.(*ssa.Call)
+				if !ok {
+					return nil, false
+				}
+				b, ok := call.Call.Value.(*ssa.Builtin)
+				if !ok || b.Name() != "append" || len(call.Call.Args) != 2 {
+					return nil, false
+				}
+				more, ok := sliceLiteral(call.Call.Args[1], depth+1)
+				if !ok {
+					return nil, false
+				}
+				for j := range more {
+					more[j].inLoop = true
+				}
+				added = append(more, added...)
+				cur = an.Unwrap(call.Call.Args[0])
+				// an inner `if` that appends only sometimes: phi of (cur, append(cur, …))
+				if p2, isPhi := cur.(*ssa.Phi); isPhi && p2 != x {
+					return nil, false
+				}
+			}
+			out = append(out, added...)
+		}
+		return out, inits == 1
+	}
+	return nil, false
+}
+
+// chanFill: what a channel held in v (made here, or handed back by a module
+// helper) has been sent by the time fn is done with it, and whether it has
+// been closed by then.
+func chanFill(fn *ssa.Function, v ssa.Value, depth int) (elems []chanElem, closed bool, ok bool) {
+	v = an.Unwrap(v)
+	if an.IsNilConst(v) || depth > 3 {
+		return nil, false, false
+	}
+	var out []chanElem
+	switch x := v.(type) {
+	case *ssa.Call:
+		g := an.StaticCallee(&x.Call)
+		if !an.InModuleFn(g) || len(g.Params) != len(x.Call.Args) {
+			return nil, false, false
+		}
 		first := true
 		for _, rb := range an.ReturnBlocks(g) {
 			rv := an.ReturnValues(an.LastInstr(rb).(*ssa.Return))
 			if len(rv) == 0 {
-				return nil, false
+				return nil, false, false
 			}
-			elems, ok := chanLiteral(g, rv[0], depth+1)
-			if !ok || (!first && len(elems) != len(out)) {
-				return nil, false
+			es, cl, ok := chanFill(g, rv[0], depth+1)
+			if !ok || (!first && (len(es) != len(out) || cl != closed)) {
+				return nil, false, false
 			}
-			first = false
+			first, closed = false, cl
 			out = out[:0]
-			for _, e := range elems {
+			for _, e := range es {
 				// a parameter of the helper is the caller's argument
 				if par, isPar := an.Unwrap(e.val).(*ssa.Parameter); isPar {
 					for i, gp := range g.Params {
 						if gp == par {
-							e.val = call.Call.Args[i]
+							e.val = x.Call.Args[i]
 						}
 					}
 					if e.spread {
-						if vs, okv := an.VariadicElems(e.val); okv {
-							for _, v := range vs {
-								out = append(out, chanElem{val: v})
-							}
-							continue
+						vs, okv := sliceLiteral(e.val, 0)
+						if !okv {
+							return nil, false, false
 						}
-						if _, still := an.Unwrap(e.val).(*ssa.Parameter); !still {
-							return nil, false
+						for _, v := range vs {
+							v.inLoop = v.inLoop || e.inLoop
+							out = append(out, v)
 						}
+						continue
 					}
 				}
 				out = append(out, e)
 			}
 		}
-		return out, !first
-	}
-	mc, ok := v.(*ssa.MakeChan)
-	if !ok || mc.Parent() != fn {
-		return nil, false
+		if first {
+			return nil, false, false
+		}
+	case *ssa.MakeChan:
+		if x.Parent() != fn {
+			return nil, false, false
+		}
+	default:
+		return nil, false, false
 	}
 	var sends []*ssa.Send
 	deferred := false
 	var closes []*ssa.Call
 	an.Instrs(fn, func(in ssa.Instruction) {
-		switch x := in.(type) {
+		switch y := in.(type) {
 		case *ssa.Send:
-			if an.Unwrap(x.Chan) == ssa.Value(mc) {
-				sends = append(sends, x)
+			if an.Unwrap(y.Chan) == v {
+				sends = append(sends, y)
 			}
 		case *ssa.Defer:
-			if b, ok := x.Call.Value.(*ssa.Builtin); ok && b.Name() == "close" && an.Unwrap(x.Call.Args[0]) == ssa.Value(mc) {
+			if b, ok := y.Call.Value.(*ssa.Builtin); ok && b.Name() == "close" && an.Unwrap(y.Call.Args[0]) == v {
 				deferred = true
 			}
 		case *ssa.Call:
-			if b, ok := x.Call.Value.(*ssa.Builtin); ok && b.Name() == "close" && an.Unwrap(x.Call.Args[0]) == ssa.Value(mc) {
-				closes = append(closes, x)
+			if b, ok := y.Call.Value.(*ssa.Builtin); ok && b.Name() == "close" && an.Unwrap(y.Call.Args[0]) == v {
+				closes = append(closes, y)
 			}
 		}
 	})
-	if !deferred {
+	if closed && (len(sends) > 0 || deferred || len(closes) > 0) {
+		return nil, false, false // sending on / closing a closed channel
+	}
+	if deferred {
+		closed = true
+	} else if len(closes) > 0 {
 		// closed explicitly: on every way to a return that hands the channel out
+		closed = true
 		for _, rb := range an.ReturnBlocks(fn) {
 			hands := false
 			for _, rv := range an.ReturnValues(an.LastInstr(rb).(*ssa.Return)) {
-				if an.Unwrap(rv) == ssa.Value(mc) {
+				if an.Unwrap(rv) == v {
 					hands = true
 				}
 			}
@@ -217,19 +301,26 @@ func chanLiteral(fn *ssa.Function, v ssa.Value, depth int) ([]chanElem, bool) {
 				}
 			}
 			if !dom {
-				return nil, false
+				closed = false
 			}
-		}
-		if len(closes) == 0 {
-			return nil, false
 		}
 	}
 	sort.SliceStable(sends, func(i, j int) bool { return before(sends[i], sends[j]) })
-	var out []chanElem
 	for _, sd := range sends {
+		// `for _, item := range items { ch <- item }` with items a parameter: the caller's list
+		if u, isLoad := an.Unwrap(sd.X).(*ssa.UnOp); isLoad && an.InLoop(sd.Block()) {
+			if ia, isIA := u.X.(*ssa.IndexAddr); isIA {
+				if par, isPar := an.Unwrap(ia.X).(*ssa.Parameter); isPar {
+					if all, _ := forAllLoopAt(sd.X, sd.Block()); all {
+						out = append(out, chanElem{val: par, spread: true})
+						continue
+					}
+				}
+			}
+		}
 		out = append(out, chanElem{val: sd.X, inLoop: an.InLoop(sd.Block())})
 	}
-	return out, true
+	return out, closed, true
 }
 
 // chanContents: the values a returned reply channel carries, in order (no
@@ -686,7 +777,8 @@ func runMwBound(c *core.Ctx) {
 					detail = "rejection not controlled by ContainsFunc over the message's filters"
 					break
 				}
-				sub := "p:" + pred.Params[0].Name() + ".Limit"
+				pred, first := throughBound(pred)
+				sub := "p:" + pred.Params[first].Name() + ".Limit"
 				syms := symbolsFor(pred, sub)
 				if len(syms) != 1 || !strings.Contains(syms[0], "recv.") {
 					okAll = false
